@@ -42,6 +42,57 @@ func TestVerifC01Core(t *testing.T) {
 			rec.sample("core", 3, scenarioBrief(&sc))
 		}
 
+		// ---- part 1b: messages at the fragment-count limit ------------------------
+		// A message the core accepts must arrive with its boundaries, also when it
+		// needs 254, 255, 256 ... fragments (the frg field is one byte).
+		for q := 0; q < env.pickN(48, 960); q++ {
+			idx := caseIdx
+			caseIdx++
+			if !env.mine(idx) {
+				continue
+			}
+			rng := rec.seed(uint64(idx), 11)
+			sc := genCoreScenario(rng, idx, "fragment-limit")
+			sc.CfgA.Stream, sc.CfgB.Stream = false, false
+			sc.CfgA.Mtu = pick(rng, []int{50, 64, 100})
+			sc.CfgA.SndWnd, sc.CfgB.RcvWnd = 1024, 1024
+			sc.AppB.TotalBytes = 0
+			sc.AppA.Raw = true
+			mss := sc.CfgA.mss()
+			sc.AppA.TotalBytes = 0
+			sc.AppA.Writes = nil
+			for i := 0; i < rng.between(2, 5); i++ {
+				frags := pick(rng, []int{1, 2, 254, 255, 256, 257, 300})
+				size := frags*mss - pick(rng, []int{0, 0, 1, mss - 1})
+				sc.AppA.Writes = append(sc.AppA.Writes, appWrite{rng.between(0, 50), size})
+			}
+			if sc.Net.Loss > 0.3 {
+				sc.Net.Loss = 0.3
+			}
+			sc.AppB.ReadEvery = pick(rng, []int{0, 5})
+			rec.beginCase(sc)
+			rec.guard(sc, func() {
+				installSimHooks()
+				sc.AppA.expand(rng, mss, "")
+				sc.AppB.expand(rng, sc.CfgB.mss(), "")
+				s := newSimCore(rec, sc, sc.CfgA, sc.CfgB, sc.AppA, sc.AppB, sc.Net.fate(newRng(rng.u64())), 0, 0, 0)
+				defer s.close()
+				s.deadline = sc.LimitMs
+				s.start()
+				ok := s.run(s.complete)
+				res := coreResult{completed: ok && s.complete(), sim: s}
+				res.tally(rec)
+				rec.eval(1)
+				rec.count("fragment_limit_messages_refused", s.ends[0].wRefused)
+				rec.count("fragment_limit_messages_accepted", int64(len(s.ends[0].wMsgs)))
+				if !res.completed {
+					rec.violation("C02 transfer did not complete within the virtual-time limit", s.progressSummary(), sc)
+				}
+				rec.nontrivial(hashAny(sc))
+			})
+			rec.sample("fragment-limit", 1, scenarioBrief(&sc))
+		}
+
 		// ---- part 2: refused Send must leave nothing queued ---------------------
 		for q := 0; q < env.pickN(32, 320); q++ {
 			idx := caseIdx
